@@ -26,6 +26,12 @@ CHECKS = {
  "C15": ("model_checking", "explicit enumeration of all operation histories up to a depth on two real streams with hand-offs, reference model of 'established and clean', reference decryptor watching nonce continuity",
          "E-BFS", "All histories of length <= 5 (quick) / 7 (thorough) over 10 operations (messages each way, begin/finish partial send and receive, hand-off of either end) run on fresh real streams; in every state export is attempted on both ends and may succeed only when the reference model says established in both directions with no partial message; all traffic after any chain of hand-offs must round-trip and open under the reference decryptor with strictly continuing nonces; every truncation, wrong magic and wrong version of a blob must be rejected.",
          "Conservative refusals are recorded, not flagged; corruption of key/IV/counter bytes inside a blob is outside the statement.", "DESIGN.md §3 C15"),
+ "C03": ("model_checking", "exhaustive enumeration of (role, own policy, method list, scripted-peer deviation) on the real endpoint against an independent scripted peer that logs what ran on the wire",
+         "E-ENUM+scripted-peer", "The real endpoint in both roles x its own 4x4 policy (x Integrity in thorough) x every non-empty ordered subset of {CLAIMTOBE, TOKEN} x a catalogue of 15 server-side and 12 client-side peer deviations (answers NO/YES against the table, ECDH key omitted/truncated/random/not base64, no common cipher, unoffered/several/zero method bits, DENIED, post-auth ad in clear, bitmask outside the list or skipped). If the endpoint returns success: REQUIRED authentication implies the peer logged a completed exchange of a listed method; REQUIRED encryption/integrity implies an encrypted stream whose next application bytes are invisible on the wire and open under the agreed key; reported flags and method equal what ran.",
+         "The scripted peer (props/peer.go) is an independent implementation on refcodec framing and speaks CLAIMTOBE only; resumed handshakes against a changed policy are covered by C06.", "DESIGN.md §3 C03"),
+ "C10": ("model_checking", "exhaustive enumeration of the 4^4 policy matrix x method-list shapes x cipher lists x command on two real endpoints, judged by an independent decision table and a passive wire recorder",
+         "E-ENUM", "Every cell of the (client auth, server auth, client enc, server enc) matrix x method-list shapes x {common cipher, none} x {command, auth-only} runs two real endpoints over an in-memory pipe: fail/succeed, whether authentication ran (witnessed on the wire), encryption when required, explicit denial instead of a bare close, equal reports on both sides, same session id and an immediate ping/pong both ways are compared with a decision table written from the property text.",
+         "Method alphabet CLAIMTOBE / TOKEN / unimplemented PASSWORD; quick uses 5 of the 10 list shapes.", "DESIGN.md §3 C10"),
 }
 PENDING = "check not built yet in this session (planned, DESIGN.md section 3); listed here until its check is registered"
 def main():
